@@ -31,6 +31,9 @@ struct C {
     needs_union_double_int64: bool,
     needs_async: bool,
     prim_names: HashSet<String>,
+    /// Destructor (`*_free`) of each C type name that has one, so that a
+    /// shared anonymous type met again under a new `TypeId` finds it.
+    dtors_by_name: HashMap<String, String>,
     world: String,
     sizes: SizeAlign,
     renamed_interfaces: HashMap<WorldKey, String>,
@@ -1899,10 +1902,15 @@ impl InterfaceGenerator<'_> {
                         (false, format!("{namespace}_{encoded}_t"))
                     };
 
-                    let prev = self.r#gen.type_names.insert(ty, name);
+                    let prev = self.r#gen.type_names.insert(ty, name.clone());
                     assert!(prev.is_none());
 
                     if defined {
+                        // Already emitted under this shared name (possibly for
+                        // another `TypeId`): its destructor exists as well.
+                        if let Some(dtor) = self.r#gen.dtors_by_name.get(&name) {
+                            self.r#gen.dtor_funcs.insert(ty, dtor.clone());
+                        }
                         continue;
                     }
 
@@ -2031,6 +2039,9 @@ impl InterfaceGenerator<'_> {
         }
         self.src.c_helpers("}\n");
         self.r#gen.dtor_funcs.insert(id, format!("{prefix}_free"));
+        self.r#gen
+            .dtors_by_name
+            .insert(name.clone(), format!("{prefix}_free"));
     }
 
     fn free(&mut self, ty: &Type, expr: &str) {
